@@ -284,7 +284,7 @@ func (env *verifEnv) c04CarrierConsumers(res *verifResult, valid string) []*c04C
 		}})
 	// the client authenticates in the body: the Authorization header is a carrier under test
 	cs = append(cs, &c04CarrierConsumer{cons: &c04Consumer{name: "token", kind: "code"},
-		term: fmt.Sprintf("(CToken {| tr_post := true; tr_grant := gt_authcode; tr_redirect := %s; tr_code := tok0; tr_verifier := []; tr_vhash := []; tr_basic := None; tr_form_client := %s; tr_form_secret := %s |})",
+		term: fmt.Sprintf("(CToken {| tr_conn := conn_none; tr_post := true; tr_grant := gt_authcode; tr_redirect := %s; tr_code := tok0; tr_verifier := []; tr_vhash := []; tr_basic := None; tr_form_client := %s; tr_form_secret := %s |})",
 			coqStr(c04RedirectA), coqStr(c04ClientA), coqStr(c04SecretA)),
 		usual: "form-code", method: "POST", path: idpOpenIDCTokenPath,
 		params: url.Values{"grant_type": {"authorization_code"}, "redirect_uri": {c04RedirectA}, "client_id": {c04ClientA}, "client_secret": {c04SecretA}},
